@@ -501,6 +501,21 @@ SEED_EXPECT.update({
 })
 
 
+def apply_patch_file(relpath):
+    def edit(root):
+        path = os.path.join(VERIF, relpath)
+        pr = subprocess.run(['patch', '-p1', '-s', '-d', root, '-i', path], capture_output=True, text=True)
+        if pr.returncode != 0:
+            raise Skip(f"patch {relpath} does not apply on this tree")
+        return [l[6:].split('\t')[0] for l in open(path).read().splitlines() if l.startswith('+++ b/')]
+    return edit
+
+
+CONTROLS.append(C('fire-wrong-unroll-final-checks', 'fire', ['C01', 'C18'], apply_patch_file('controls-data/wrong-unroll-final-checks.diff'), 'R-DOM',
+                  'one level of the recursion of _final_checks unrolled for childless elements, but the inlined branch forgets the required-attribute check: the '
+                  're-roll pass of the normaliser must not take it for the recursive call (twin T-R3-C04a, which is complete, must stay silent)'))
+
+
 def apply_benign(bid):
     def edit(root):
         path = os.path.join(VERIF, 'benign', bid, 'patch.diff')
